@@ -125,14 +125,14 @@ CAND_LISTS = [["HDLC:0:0"], ["HDLC:1:1"], ["P1"], ["HDLC:0:0", "P1"], ["P1", "HD
 
 
 def _mk(args):
-    import logging
-    logging.disable(logging.CRITICAL)
+    from .core import set_logging
+    set_logging(args)
     seed, n = args
     rng = random.Random(seed)
     out = []
     for k in range(n):
         variant = "payload" if k % 2 == 0 else "message"
-        style = rng.choice(["hdlc_clean", "hdlc_clean", "p1_clean", "p1_clean", "hdlc_dirty", "p1_dirty", "noise"])
+        style = rng.choice(["hdlc_clean", "hdlc_clean", "p1_clean", "p1_clean", "hdlc_dirty", "p1_dirty", "noise", "p1_sandwich", "hdlc_sandwich"])
         names = rng.choice(CAND_LISTS)
         plan_payloads, mode = None, "free"
         hd = [x for x in names if x.startswith("HDLC")]
@@ -144,12 +144,20 @@ def _mk(args):
                 names = [x for x in names if not x.startswith("HDLC") or x == cfgname]
             cfg = (cfgname.split(":")[1] == "1", cfgname.split(":")[2] == "1")
             if style == "hdlc_clean":
-                plan = H.clean_plan(rng, cfg, rng.randint(1, 6), fresh_noise=False)
+                if k % 7 == 3:      # frames within the length limit whose wire form (escapes included, when stuffing) is far above it
+                    plan = H.clean_plan(rng, cfg, 3, fresh_noise=False, sizes=[8, 1209, 1500, 2030], dense=True)
+                else:
+                    plan = H.clean_plan(rng, cfg, rng.randint(1, 6), fresh_noise=False)
                 # keep the stream free of anything a P1 candidate could take for a readout ('/' ... LF ... '!')
                 data = H.plan_wire(cfg, plan)
                 if variant == "payload":
                     plan_payloads = [bytes(it["info"]) for it in plan if it["k"] == "frame" and it["info"]]
                     mode = "clean"
+            elif style == "hdlc_sandwich":      # selection happens on the first frames; then damaged ones reach message_received; then good ones
+                from .drv_readers import almost_frames
+                enc = (lambda x: H.stuff(x)) if cfg[0] else (lambda x: x)
+                ok = [H.item_bytes(H.item_frame(rng, maxinfo=30, sizes=[3, 8, 20])) for _ in range(4)]
+                data = b"".join(b"\x7e" + enc(f) for f in ok[:2]) + b"\x7e" + almost_frames(rng, cfg) + b"".join(b"\x7e" + enc(f) for f in ok[2:]) + b"\x7e"
             else:
                 data = H.free_stream(rng, cfg)
                 if rng.random() < 0.5:      # clean frames around a frame with an empty information field (payload b"")
@@ -172,6 +180,9 @@ def _mk(args):
                         return r[r.find(b"\n") + 1:r.find(b"!")]
                     plan_payloads = [pl(it) for it in plan if it["k"] == "readout" and pl(it)]
                     mode = "clean"
+            elif style == "p1_sandwich":        # good readouts, then readouts wrong in one boundary-valued octet (invalid, >= 0x80, ...), then good ones
+                from .drv_readers import almost_readouts
+                data = (P.plan_wire(P.clean_plan(rng, 2, False)) + almost_readouts(rng, seed + k) + P.plan_wire(P.clean_plan(rng, 2, False)))
             else:
                 plan = P.resync_plan(rng, rng.choice(P.P1_NOISE[:9]), rng.randint(1, 3))
                 data = P.plan_wire(plan)
@@ -475,8 +486,8 @@ def replay_c13(chk, rp):
 
 # ----------------------------------------------------------------------------- protocol part of C14
 def _mk14(args):
-    import logging
-    logging.disable(logging.CRITICAL)
+    from .core import set_logging
+    set_logging(args)
     from .drv_readers import KINDS14, _noise14
     seed, n = args
     rng = random.Random(seed)
@@ -487,6 +498,16 @@ def _mk14(args):
         data = b"".join(_noise14(rng, rng.choice(KINDS14)) for _ in range(rng.randint(1, 4)))
         if rng.random() < 0.5:
             data += P.item_bytes(P.item_readout(rng, nlines=2)) * 2
+        if k % 3 == 0:      # a reader gets selected first, so that what follows reaches message_received(): good, almost good, noise, good
+            from .drv_readers import almost_frames, almost_readouts
+            if k % 2 == 0:
+                good = P.item_bytes(P.item_readout(rng, nlines=2))
+                data = good + almost_readouts(rng, seed + k) + data + good
+            else:
+                cfg = next((n.split(":")[1] == "1", n.split(":")[2] == "1") for n in names if n.startswith("HDLC"))
+                f = H.item_bytes(H.item_frame(rng, maxinfo=20, sizes=[3, 8]))
+                good = b"\x7e" + (H.stuff(f) if cfg[0] else f) + b"\x7e"
+                data = good + almost_frames(rng, cfg) + data + good
         cuts = rng.choice(chunkings(rng, len(data), 4))
         out.append(record(variant, mk_readers(names), split(data, cuts), None, "free", "gen:c14", names))
     return out
